@@ -18,6 +18,7 @@ type c18MemoEvent struct {
 	key   ssa.Value
 	val   ssa.Value // stored value (stores only)
 	store bool
+	base  ssa.Value // the pointer the owning object is reached through (inline accesses only)
 }
 
 type c18MemoHelper struct {
@@ -115,11 +116,11 @@ func c18MemoEvents(p *fw.Program, fn *ssa.Function) []c18MemoEvent {
 		switch x := ins.(type) {
 		case *ssa.Lookup:
 			if f := c18MemoField(x.X); f != "" {
-				out = append(out, c18MemoEvent{ins: ins, field: f, key: x.Index})
+				out = append(out, c18MemoEvent{ins: ins, field: f, key: x.Index, base: c18MemoBase(x.X)})
 			}
 		case *ssa.MapUpdate:
 			if f := c18MemoField(x.Map); f != "" {
-				out = append(out, c18MemoEvent{ins: ins, field: f, key: x.Key, val: x.Value, store: true})
+				out = append(out, c18MemoEvent{ins: ins, field: f, key: x.Key, val: x.Value, store: true, base: c18MemoBase(x.Map)})
 			}
 		case ssa.CallInstruction:
 			cal := x.Common().StaticCallee()
@@ -143,4 +144,14 @@ func c18MemoEvents(p *fw.Program, fn *ssa.Function) []c18MemoEvent {
 		}
 	})
 	return out
+}
+
+// c18MemoBase: the pointer at the bottom of the field chain the map value was loaded from.
+func c18MemoBase(m ssa.Value) ssa.Value {
+	u, ok := m.(*ssa.UnOp)
+	if !ok {
+		return nil
+	}
+	b, _ := c18BasePtr(u.X)
+	return b
 }
